@@ -1,5 +1,5 @@
 (* reads the same case lines as harness/c18.c (load / save) and prints the same result lines *)
-open X_c18
+
 
 (* cmyk.h, double arithmetic exactly as in C (IEEE binary64, no contraction) *)
 let rgb_to_cmyk maxval r g b =
@@ -29,6 +29,12 @@ let err_name = function
   | E_EOF -> "EOF" | E_NONNUM -> "NONNUM" | E_RANGE -> "RANGE" | E_NOTPPM -> "NOTPPM"
   | E_TOOBIG -> "TOOBIG" | E_BADCS -> "BADCS" | E_OOB -> "MODEL_OOB" | E_FUEL -> "MODEL_FUEL"
 
+let berr_name = function
+  | B_EOF -> "EOF" | B_NOT -> "BMP_NOT" | B_BADHEADER -> "BMP_BADHEADER" | B_BADDEPTH -> "BMP_BADDEPTH"
+  | B_COMPRESSED -> "BMP_COMPRESSED" | B_EMPTY -> "BMP_EMPTY" | B_TOOBIG -> "TOOBIG" | B_BADPLANES -> "BMP_BADPLANES"
+  | B_BADCMAP -> "BMP_BADCMAP" | B_BADCS -> "BADCS" | B_RANGE -> "BMP_RANGE" | B_WIDTH -> "WIDTH_OVERFLOW"
+  | B_OOB -> "MODEL_OOB"
+
 let pf_of_target t =
   let rec find i = if i > 11 then -1 else if layout_of_pf (z_of_int i) = Some t then i else find (i + 1) in
   find 0
@@ -41,7 +47,21 @@ let () = iter_lines (fun line ->
       let pf = int_of_string pf in
       (match bytes with
        | [] -> print_endline "err EMPTY"
-       | c :: _ when int_of_z c = 66 -> print_endline "skip bmp"
+       | c :: _ when int_of_z c = 66 && int_of_string prec > 8 -> print_endline "err BADPREC"   (* jinit_read_bmp: 8-bit only *)
+       | c :: _ when int_of_z c = 66 ->
+         let want = if pf < 0 then None else layout_of_pf (z_of_int pf) in
+         let mp = z_of_int (int_of_string maxpix) in
+         let huge = (match bmp_header mp want bytes with
+                     | BOk (hd, _) -> int_of_z hd.b_w * int_of_z hd.b_h > 16777216 || int_of_z hd.b_w > 4194304
+                     | BErr _ -> false) in
+         if huge then print_endline "skip huge" else
+         (match load_bmp rgb_to_cmyk mp want (bu = "1") bytes with
+          | BErr e -> print_endline ("err " ^ berr_name e)
+          | BOk (((w, h), t), rows) ->
+            let b = Buffer.create 4096 in
+            Buffer.add_string b (Printf.sprintf "ok %d %d %d |" (int_of_z w) (int_of_z h) (pf_of_target t));
+            List.iter (fun row -> List.iter (fun v -> Buffer.add_char b ' '; Buffer.add_string b (string_of_int (int_of_z v))) row) rows;
+            print_endline (Buffer.contents b))
        | c :: _ when int_of_z c <> 80 -> print_endline "err UNSUPPORTED"
        | _ ->
          let want = if pf < 0 then None else layout_of_pf (z_of_int pf) in
@@ -54,7 +74,7 @@ let () = iter_lines (fun line ->
             List.iter (fun row -> List.iter (fun v -> Buffer.add_char b ' '; Buffer.add_string b (string_of_int (int_of_z v))) row) rows;
             print_endline (Buffer.contents b)))
   | "save" :: prec :: pf :: bu :: _pad :: ext :: w :: h :: "|" :: samples ->
-      if ext = "bmp" then print_endline "skip bmp" else begin
+      begin
         let pf = int_of_string pf and w = int_of_string w and h = int_of_string h in
         match layout_of_pf (z_of_int pf) with
         | None -> print_endline "err pf"
@@ -62,7 +82,8 @@ let () = iter_lines (fun line ->
           let ps = [| 3; 3; 4; 4; 4; 4; 1; 4; 4; 4; 4; 4 |].(pf) in
           let all = List.map (fun s -> z_of_int (int_of_string s)) samples in
           let rec rows l n = if n = 0 then [] else take (w * ps) l :: rows (drop (w * ps) l) (n - 1) in
-          let bytes = save_pnm cmyk_to_rgb (z_of_int (int_of_string prec)) t (bu = "1") (z_of_int w) (z_of_int h) (rows all h) in
+          let bytes = if ext = "bmp" then save_bmp cmyk_to_rgb t (bu = "1") (z_of_int w) (z_of_int h) (rows all h)
+            else save_pnm cmyk_to_rgb (z_of_int (int_of_string prec)) t (bu = "1") (z_of_int w) (z_of_int h) (rows all h) in
           let b = Buffer.create 4096 in
           Buffer.add_string b "bytes ";
           List.iter (fun v -> Buffer.add_string b (Printf.sprintf "%02x" (int_of_z v))) bytes;
